@@ -4,3 +4,7 @@ import CheetahModel.Properties.C05
 #print axioms C05.quad_r10_gradient
 #print axioms C05.guard_transparent
 #print axioms C05.guard_kills_gradient_at_zero
+#print axioms C05.ad_sound_arith
+#print axioms C05.ad_sound_functions
+#print axioms C05.ad_sound_leaves
+#print axioms C05.drift_r56_energy_gradient
